@@ -349,6 +349,15 @@ func (e *kengine) derive(s *kstate, v ssa.Value, depth int) kfact {
 		}
 		return f
 	case *ssa.Extract:
+		// a reflect.Value among the results of a helper of the package (`current, safe = unpackCallResult(rv)`): the join
+		// of what the helper's returns hand back, taken from a run of the helper that assumes nothing about its parameters
+		if c, isCall := x.Tuple.(*ssa.Call); isCall && isReflectValue(x.Type()) {
+			if g := c.Common().StaticCallee(); g != nil && e.p.InPkg(g) && g.Blocks != nil && g != e.f {
+				if rf, ok := kResultFact(e.p, g, x.Index, e.preds); ok {
+					return rf
+				}
+			}
+		}
 		// element of []reflect.Value results (Call) etc.
 		return f
 	case *ssa.UnOp:
@@ -1422,4 +1431,67 @@ func evalKindPredicate(g *ssa.Function, k int) (canTrue, canFalse bool) {
 	}
 	walk(g.Blocks[0], nil)
 	return
+}
+
+var kResultMemo = map[*ssa.Function]map[int]*kfact{}
+var kResultBusy = map[*ssa.Function]bool{}
+
+// kResultFact: what result #idx (a reflect.Value) of helper g can be, as the join over g's returns, in a run of g that
+// starts without facts about its parameters (an engine of its own, not the one g is reported with).
+func kResultFact(p *Prog, g *ssa.Function, idx int, preds *predSummaries) (kfact, bool) {
+	if m, ok := kResultMemo[g]; ok {
+		if f, has := m[idx]; has {
+			if f == nil {
+				return kfact{}, false
+			}
+			return *f, true
+		}
+	}
+	if kResultBusy[g] {
+		return kfact{}, false
+	}
+	kResultBusy[g] = true
+	defer delete(kResultBusy, g)
+	if kResultMemo[g] == nil {
+		kResultMemo[g] = map[int]*kfact{}
+	}
+	ge := &kengine{p: p, f: g, preds: preds}
+	ge.run()
+	var out *kfact
+	for _, ret := range returnsOf(g) {
+		st := ge.out[ret.Block()]
+		if st == nil {
+			st = ge.in[ret.Block()]
+		}
+		if st == nil || idx >= len(ret.Results) {
+			continue // unreachable return
+		}
+		rv := res(ret, idx)
+		if k, isK := rv.(*ssa.Const); isK && k.Value == nil {
+			// the zero reflect.Value
+			z := kfact{kinds: ks(kInvalid), ci: ciIfValid}
+			if out == nil {
+				out = &z
+			} else {
+				out.kinds |= z.kinds
+			}
+			continue
+		}
+		f := ge.get(st, rv)
+		if out == nil {
+			c := f
+			out = &c
+			continue
+		}
+		out.kinds |= f.kinds
+		if f.ci < out.ci {
+			out.ci = f.ci
+		}
+		out.addr = out.addr && f.addr
+	}
+	kResultMemo[g][idx] = out
+	if out == nil {
+		return kfact{}, false
+	}
+	return *out, true
 }
